@@ -32,7 +32,7 @@ MW_NAMES = ['gzip', 'cache', 'stats', 'profile', 'cookie', 'ctxproc', 'getparam'
 BODIES = ['empty', 'one', 'kb', 'big', 'rand', 'binary', 'nonascii']
 AE = [None, 'gzip', 'gzip;q=0', '*', 'identity', 'deflate, gzip;q=0.5', '*;q=0', 'identity;q=1, *;q=0', 'gzip;q=0.0, *;q=1',
       'GZIP']
-QUERIES = ['', 'page=abc&q=x', 'page=3&q=']
+QUERIES = ['', 'page=abc&q=x', 'page=3&q=', '_prof_sort=alphabetical&_prof_sort2=']
 
 
 def deadline_passed():
@@ -118,6 +118,13 @@ def build(stack):
         data = body_bytes(request.args.get('b', 'kb'))
         return Response(iter([data[:10], data[10:]]), content_type='text/plain')
 
+    def ep_deflated():
+        # a body that already carries a content coding of its own (stored deflate blocks: still compressible)
+        import zlib
+        raw = zlib.compressobj(0)
+        data = raw.compress(b'pre-encoded payload ' * 4000) + raw.flush()
+        return Response(data, content_type='text/plain', headers={'Content-Encoding': 'deflate'})
+
     def ep_redir():
         return redirect('/resp?b=kb')
 
@@ -141,7 +148,8 @@ def build(stack):
 
     def posted(request):
         return Response(('posted:%s:%s' % (request.form.get('p'), request.form.get('n'))).encode('utf-8'))
-    routes = [('/resp', ep_resp), ('/ctx', ep_ctx, render), ('/stream', ep_stream), ('/redir', ep_redir), ('/branch/', ep_resp),
+    routes = [('/resp', ep_resp), ('/ctx', ep_ctx, render), ('/stream', ep_stream), ('/deflated', ep_deflated), ('/redir', ep_redir),
+              ('/branch/', ep_resp),
               ('/raise4', raise4), ('/ret4', ret4), ('/raise5', raise5), ('/nb', nb), ('/nb', second), ('/boom', boom),
               POST('/post', posted)]
     return Application(routes, middlewares=[make_mw(n) for n in stack])
@@ -154,6 +162,7 @@ def request_catalogue():
         out.append(('resp-' + b, '/resp', 'GET', 'b=' + b, b''))
         out.append(('ctx-' + b, '/ctx', 'GET', 'b=' + b, b''))
     out.append(('stream', '/stream', 'GET', 'b=kb', b''))
+    out.append(('deflated', '/deflated', 'GET', '', b''))
     out.append(('head', '/resp', 'HEAD', 'b=kb', b''))
     out.append(('redir', '/redir', 'GET', '', b''))
     out.append(('slash-redirect', '/branch', 'GET', 'b=kb', b''))
@@ -191,6 +200,27 @@ def accepts_gzip(ae):
     return False
 
 
+def undo_codings(header, data):
+    import zlib
+    codings = [c.strip().lower() for c in (header or '').split(',') if c.strip()]
+    try:
+        for c in reversed(codings):
+            if c == 'gzip':
+                data = gzip.decompress(data)
+            elif c == 'deflate':
+                try:
+                    data = zlib.decompress(data)
+                except zlib.error:
+                    data = zlib.decompress(data, -15)
+            elif c == 'identity':
+                pass
+            else:
+                return None
+        return data
+    except Exception:
+        return None
+
+
 def call(app, path, method, query, ae, body):
     hdrs = {}
     if ae is not None:
@@ -214,7 +244,7 @@ def check_stack(acc, stack, baseline_app, cache):
     for rlabel, path, method, qx, body in itertools.chain(*passes):
         for q in QUERIES:
             query = '&'.join(x for x in (qx, q) if x)
-            aes = AE if (rlabel.startswith('resp-') or rlabel.startswith('ctx-') or rlabel in ('raise4', 'ret4', 'fallthrough', 'stream')) else AE[:3]
+            aes = AE if (rlabel.startswith('resp-') or rlabel.startswith('ctx-') or rlabel in ('raise4', 'ret4', 'fallthrough', 'stream', 'deflated')) else AE[:3]
             if q and not rlabel.startswith('resp-k'):
                 aes = aes[:2]
             for ae in aes:
@@ -268,6 +298,13 @@ def check_stack(acc, stack, baseline_app, cache):
                         bad('content-length', 'Content-Length %r but %d bytes sent' % (cl, len(raw)))
                         continue
                 want = base.body or b''
+                if rlabel == 'deflated':
+                    # what a client ends up with after undoing the codings the response declares
+                    decoded = undo_codings(res.header('Content-Encoding'), raw)
+                    want = undo_codings(base.header('Content-Encoding'), want)
+                    if decoded is None:
+                        bad('coding-corrupt', 'body cannot be decoded per its Content-Encoding %r' % res.header('Content-Encoding'))
+                        continue
                 if rlabel == 'boom':
                     decoded, want = decoded.split(b'\n')[0], want.split(b'\n')[0]
                 if decoded != want:
